@@ -446,3 +446,66 @@ func TestC07Errors(t *testing.T) {
 		}
 	})
 }
+
+// TestC04Forward: the forwarding channel takes precedence over the register
+// file for every instruction and every source operand. One-instruction
+// programs (the C02 machinery): the true operand value is delivered through
+// Forward while the register file holds another value; the architectural effect
+// must be the one of the true value. Enumerated: every mnemonic that reads a
+// register x source operand x lattice values x plain / rename-table context.
+func TestC04Forward(t *testing.T) {
+	h := hx.Begin(t, "C04", "forward")
+	L := gen.Lattice
+	for oi, op := range ref.Mnemonics {
+		if oi%h.Env.Shards != h.Env.Shard {
+			continue
+		}
+		sh := ref.Shape(op)
+		for _, pat := range [][3]int{{5, 6, 7}, {5, 6, 6}, {6, 6, 7}, {7, 6, 7}} {
+			for ai := 0; ai < len(L); ai += 3 {
+				for bi := 0; bi < len(L); bi += 3 {
+					a, b := L[ai], L[bi]
+					for fwd := 1; fwd <= 2; fwd++ {
+						in := ref.Ins{Op: op, Rd: pat[0], Rs1: pat[1], Rs2: pat[2]}
+						c := c02Case{Ins: in, A: a, B: b, Pc: 0, Tgt: 40, Fwd: fwd}
+						switch sh {
+						case ref.ShapeI, ref.ShapeU, ref.ShapeJalr, ref.ShapeLoad, ref.ShapeStore:
+							c.Ins.Imm = b
+							c.B = L[(ai+bi)%len(L)]
+						}
+						if sh == ref.ShapeBr1 || sh == ref.ShapeBr2 || sh == ref.ShapeJ || sh == ref.ShapeJal {
+							c.Ins.Label = "L"
+						}
+						if (op == "div" || op == "rem") && (b == 0 || (pat[2] == pat[1] && a == 0)) {
+							continue
+						}
+						reg := in.Rs1
+						if fwd == 2 {
+							reg = in.Rs2
+						}
+						reads := false
+						for _, r := range in.Reads() {
+							if r == reg {
+								reads = true
+							}
+						}
+						if !reads {
+							continue
+						}
+						for _, rat := range []bool{false, true} {
+							c.RAT = rat
+							c.Text = c.Ins.Text()
+							h.Eval(hx.Hash(op, pat, a, b, fwd, rat), true, "op:"+op)
+							h.Sample(c)
+							if err := c02Judge(c); err != nil {
+								h.Fail("c02", c, 0, "forwarded operand: "+err.Error())
+								t.Fatalf("forwarded operand %d: %v", fwd, err)
+							}
+						}
+					}
+				}
+			}
+		}
+	}
+	h.Exhaustive()
+}
